@@ -146,9 +146,11 @@ func (s *Schema) Rels() []Rel {
 	}
 
 	sort.Slice(rels, func(i, j int) bool {
-		name1 := rels[i].FromType + rels[i].FromName
-		name2 := rels[j].FromType + rels[j].FromName
-		return name1 < name2
+		if rels[i].FromType != rels[j].FromType {
+			return rels[i].FromType < rels[j].FromType
+		}
+
+		return rels[i].FromName < rels[j].FromName
 	})
 
 	return rels
@@ -249,8 +251,14 @@ func (s *Schema) buildRels() {
 
 	for _, typ := range s.Types {
 		for _, rel := range typ.Rels {
-			relName := rel.String()
-			s.rels[relName] = rel.Normalize()
+			// The names are quoted because the string returned by
+			// rel.String is ambiguous when they contain underscores.
+			norm := rel.Normalize()
+			relName := fmt.Sprintf(
+				"%q %q %q %q",
+				norm.FromType, norm.FromName, norm.ToType, norm.ToName,
+			)
+			s.rels[relName] = norm
 		}
 	}
 }
